@@ -122,7 +122,14 @@ func c11Decode(w *hx.Writer, grp int, b []byte, expect string, tag string) {
 	case expect == "error" && impl != hx.E:
 		oracle = hx.Fail("malformed-accepted", "malformed input was decoded without error ("+tag+")")
 	}
-	w.Put(hx.Case{Entry: "bn", Op: op, Args: hx.L(hx.B(b)), Impl: impl, Oracle: oracle, Tags: []string{tag, "nt"}})
+	w.Put(hx.Case{Entry: "bn", Op: op, Args: hx.L(hx.B(b)), Impl: impl, Oracle: oracle, Tags: []string{tag, "nt"},
+		Re: func() string {
+			p := g.Point()
+			if err := p.UnmarshalBinary(append([]byte{}, b...)); err != nil {
+				return hx.E
+			}
+			return hx.B(PtBytes(p))
+		}})
 }
 
 func genC11(rng *hx.Rng, tier string, w *hx.Writer) error {
